@@ -52,6 +52,13 @@ let hex_of_fp (x : fp) : string = hex_of_bytes (to_repr x)
 
 let kf = keccak_bytes
 
+(* u64 limbs: 0x-hex in, 0x-hex out *)
+let zs (s : string) : z = Z.of_N (n_of_string s)
+let hex_of_z (v : z) : string =
+  let be = List.rev (bytes_of_le (nat_of_int 8) (Z.to_N v)) in
+  "0x" ^ String.concat "" (List.map (fun x -> Printf.sprintf "%02x" (int_of_n x)) be)
+let limbs_str (((a0, a1), a2) : (z * z) * z) : string = hex_of_z a0 ^ "," ^ hex_of_z a1 ^ "," ^ hex_of_z a2
+
 let out_bytes = function Ok b -> "ok " ^ hex_of_bytes b | Err -> "err" | Panic -> "panic"
 
 let split_on c s = if s = "" then [] else String.split_on_char c s
@@ -201,6 +208,27 @@ let dispatch (w : string list) : string =
       Printf.sprintf "modulus=%s num_bits=%d capacity=%d s=%d two_inv=%s gen=%s rou=%s rou_inv=%s delta=%s"
         (String.sub hx !i (String.length hx - !i)) (zi f_num_bits) (zi f_capacity) (zi f_S)
         (hex_of_fp f_two_inv) (hex_of_fp f_gen) (hex_of_fp f_rou) (hex_of_fp f_rou_inv) (hex_of_fp f_delta)
+  (* ---------------- field, limb level (ff_derive's generated code; internal Montgomery limbs) ---------------- *)
+  | [ "fpl.bin"; op; a0; a1; a2; b0; b1; b2 ] ->
+      let a = ((zs a0, zs a1), zs a2) and b = ((zs b0, zs b1), zs b2) in
+      limbs_str (match op with "add" -> ladd a b | "sub" -> lsub a b | "mul" -> lmul a b | _ -> failwith "op")
+  | [ "fpl.un"; op; a0; a1; a2 ] -> (
+      let a = ((zs a0, zs a1), zs a2) in
+      match op with
+      | "neg" -> limbs_str (lneg a)
+      | "dbl" -> limbs_str (ldouble a)
+      | "sq" -> limbs_str (lsquare a)
+      | "canon" -> limbs_str (lto_canon a) ^ " " ^ hex_of_bytes (lto_repr a) ^ (if lis_odd a then " odd" else " even")
+      | "inv" -> ( match linvert a with Some r -> limbs_str r | None -> "none")
+      | "sqrt" -> ( match lsqrt a with Some r -> limbs_str r | None -> "none")
+      | _ -> failwith "op")
+  | [ "fpl.pow"; a0; a1; a2; e0; e1; e2; e3 ] ->
+      limbs_str (lpow_vartime ((zs a0, zs a1), zs a2) [ zs e0; zs e1; zs e2; zs e3 ])
+  | [ "fpl.from"; b ] -> ( match lfrom_repr (bytes_of_hex b) with Some r -> limbs_str r | None -> "none")
+  | [ "fpl.u64"; v ] -> limbs_str (lfrom_u64 (zs v))
+  | [ "fpl.rand"; w0; w1; w2 ] -> ( match lrandom_round (zs w0) (zs w1) (zs w2) with Some r -> limbs_str r | None -> "none")
+  | [ "fpl.const" ] ->
+      String.concat " " (List.map limbs_str [ lone; r2; tWO_INV; gENERATOR; rOOT_OF_UNITY; rOOT_OF_UNITY_INV; dELTA; mODULUS_LIMBS ])
   (* ---------------- sharks ---------------- *)
   | [ "sharks.deal"; t; secret; niter; words ] -> (
       let ws = List.map n_of_string (split_on ',' words) in
